@@ -141,7 +141,9 @@ Definition run_hook (h : hook) (x : lstate) : lstate :=
       (* every other network gets a detached copy of the policy's encoder; its own encoder
          parameters disappear from parameters()/state_dict() *)
       seqL (flat_map (fun o => [ (fun y => realloc (o, cHenc) (map CopyOf (blk (snd y) (p, cEnc))) y);
-                                 realloc (o, cEnc) [] ]) others) x
+                                 realloc (o, cEnc) [];
+                                 wfresh (o, cBuf)   (* encoder buffers (batch-norm statistics) are overwritten too *)
+                               ]) others) x
   | HBandit => realloc kExt (map (fun _ => FreshV) (blk (snd x) kExt)) x
   end.
 Definition run_hooks (x : lstate) : lstate := seqL (map run_hook (r_hooks (a_reg (snd x)))) x.
@@ -160,8 +162,10 @@ Definition learn_agent (st : list (name * nat)) (x : lstate) : lstate :=
 (* the training loop appends a score / fitness and bumps steps[-1] *)
 Definition score_agent : lstate -> lstate := wfresh kBook.
 
-(* get_action(): exploration-noise state, bandit confidence matrix ... (ext tensors) may be written *)
-Definition act_agent : lstate -> lstate := wfresh kExt.
+(* get_action(): exploration-noise state, bandit confidence matrix ... (ext tensors) and, in training
+   mode, batch-norm statistics (buffers) may be written *)
+Definition act_agent (x : lstate) : lstate :=
+  seqL (map (fun n => wfresh (n, cBuf)) (net_names (snd x)) ++ [wfresh kExt]) x.
 
 (* ---- mutations (agilerl/hpo/mutation.py) ----------------------------------------------------- *)
 Record netshape := mkShape { ns_name : name; ns_arch : N; ns_enc : nat; ns_head : nat; ns_henc : nat;
